@@ -80,7 +80,14 @@ __CPROVER_ensures(NNODE == OLD(NNODE)) /*@C02*/
 /* a matching token is consumed (EOF is never passed) */
 __CPROVER_ensures(OLD(LA) != t || TOKI == OLD(TOKI) + (t == TK_T_EOF ? 0 : 1)) /*@C04,C02*/
 /* recovery: skip to the next ';' (and over it) or to EOF */
-__CPROVER_ensures(OLD(LA) == t || LA == TK_T_EOF || (TOKI >= 1 && g_toks[TOKI - 1].t == TK_PROGSEP)) /*@C02,C04*/;
+__CPROVER_ensures(OLD(LA) == t || LA == TK_T_EOF || (TOKI >= 1 && g_toks[TOKI - 1].t == TK_PROGSEP)) /*@C02,C04*/
+#ifdef CANARY_match
+/* reachability of the cases (each must FAIL); only in the group that ENFORCES this contract - where the contract replaces a
+ * call its clauses are assumed, and a canary must never be assumed */
+__CPROVER_ensures(OLD(LA) == t) /*@CANARY*/
+__CPROVER_ensures(OLD(LA) != t) /*@CANARY*/
+#endif
+;
 
 void *c_mk(void *a, int t, int line, long file_id, long tok_id, void *l, void *r)
 __CPROVER_requires(a == (void *)g_ast && NNODE <= NCAP && NCAP <= INT_MAX)
@@ -102,7 +109,14 @@ __CPROVER_ensures(NODE_OF_TOK(__CPROVER_return_value, OLD(TOKI), n) && N_(__CPRO
                   N_(__CPROVER_return_value)->right == r) /*@C07,C04*/
 __CPROVER_ensures(NERR == OLD(NERR) + (OLD(LA) != t ? 1 : 0)) /*@C04,C02*/
 __CPROVER_ensures(OLD(LA) != t || TOKI == OLD(TOKI) + (t == TK_T_EOF ? 0 : 1)) /*@C04*/
-__CPROVER_ensures(NNODE == OLD(NNODE) + 1) /*@C02*/;
+__CPROVER_ensures(NNODE == OLD(NNODE) + 1) /*@C02*/
+#ifdef CANARY_matchmk
+/* reachability of the cases (each must FAIL); only in the group that ENFORCES this contract - where the contract replaces a
+ * call its clauses are assumed, and a canary must never be assumed */
+__CPROVER_ensures(OLD(LA) == t) /*@CANARY*/
+__CPROVER_ensures(OLD(LA) != t) /*@CANARY*/
+#endif
+;
 
 /* ------------------------------------------------------------------ VALUE -> id | int | run id with VARGS end */
 #define IS_VALUE_START(k) ((k) == TK_ID || (k) == TK_INT || (k) == TK_RUN)
@@ -122,7 +136,17 @@ __CPROVER_ensures((OLD(LA) != TK_ID && OLD(LA) != TK_INT) ||
 __CPROVER_ensures(OLD(LA) != TK_RUN || (N_(__CPROVER_return_value)->t == NT_CALL && N_(__CPROVER_return_value)->left != 0 && TOKI > OLD(TOKI))) /*@C04,C02*/
 __CPROVER_ensures(OLD(LA) != TK_RUN || NERR != OLD(NERR) ||
                   (g_toks[OLD(TOKI) + 1].t == TK_ID && g_toks[OLD(TOKI) + 2].t == TK_WITH && TOKI >= OLD(TOKI) + 4 &&
-                   g_toks[TOKI - 1].t == TK_END)) /*@C04*/;
+                   g_toks[TOKI - 1].t == TK_END)) /*@C04*/
+#ifdef CANARY_VALUE
+/* reachability of the cases (each must FAIL); only in the group that ENFORCES this contract - where the contract replaces a
+ * call its clauses are assumed, and a canary must never be assumed */
+__CPROVER_ensures(OLD(LA) != TK_ID) /*@CANARY*/
+__CPROVER_ensures(OLD(LA) != TK_INT) /*@CANARY*/
+__CPROVER_ensures(OLD(LA) != TK_RUN) /*@CANARY*/
+__CPROVER_ensures(IS_VALUE_START(OLD(LA))) /*@CANARY*/
+__CPROVER_ensures(OLD(LA) != TK_RUN || NERR != OLD(NERR)) /*@CANARY*/
+#endif
+;
 
 /* ------------------------------------------------------------------ VARGS -> eps | VALUE MVARGS ; MVARGS -> eps | , VALUE MVARGS */
 void *c_VARGS(void *ps)
@@ -132,7 +156,14 @@ ENS_MONO
 __CPROVER_ensures(FRESH_OR_NULL(__CPROVER_return_value)) /*@C02*/
 __CPROVER_ensures(IS_VALUE_START(OLD(LA)) == (__CPROVER_return_value != 0)) /*@C04,C02*/
 __CPROVER_ensures(IS_VALUE_START(OLD(LA)) || (NERR == OLD(NERR) && TOKI == OLD(TOKI))) /*@C04*/
-__CPROVER_ensures(!IS_VALUE_START(OLD(LA)) || (N_(__CPROVER_return_value)->t == NT_SPLIT && N_(__CPROVER_return_value)->left != 0 && TOKI > OLD(TOKI))) /*@C04,C02*/;
+__CPROVER_ensures(!IS_VALUE_START(OLD(LA)) || (N_(__CPROVER_return_value)->t == NT_SPLIT && N_(__CPROVER_return_value)->left != 0 && TOKI > OLD(TOKI))) /*@C04,C02*/
+#ifdef CANARY_VARGS
+/* reachability of the cases (each must FAIL); only in the group that ENFORCES this contract - where the contract replaces a
+ * call its clauses are assumed, and a canary must never be assumed */
+__CPROVER_ensures(IS_VALUE_START(OLD(LA))) /*@CANARY*/
+__CPROVER_ensures(!IS_VALUE_START(OLD(LA))) /*@CANARY*/
+#endif
+;
 
 void *c_MVARGS(void *ps)
 REQ_TOK(ps)
@@ -144,7 +175,8 @@ __CPROVER_ensures(OLD(LA) == TK_ARGSEP || (__CPROVER_return_value == 0 && NERR =
 /* MVARGS -> , VALUE MVARGS : a missing value after the comma is an error and ends the list */
 __CPROVER_ensures(OLD(LA) != TK_ARGSEP || TOKI > OLD(TOKI)) /*@C04*/
 __CPROVER_ensures(OLD(LA) != TK_ARGSEP || __CPROVER_return_value != 0 || NERR > OLD(NERR)) /*@C04,C02*/
-__CPROVER_ensures(__CPROVER_return_value == 0 || (N_(__CPROVER_return_value)->t == NT_SPLIT && N_(__CPROVER_return_value)->left != 0)) /*@C02*/;
+__CPROVER_ensures(__CPROVER_return_value == 0 || (N_(__CPROVER_return_value)->t == NT_SPLIT && N_(__CPROVER_return_value)->left != 0)) /*@C02*/
+;
 
 /* ------------------------------------------------------------------ PORTS -> eps | in ARGS OPORTS ; OPORTS -> eps | out id */
 void *c_ARGS(void *ps)
@@ -154,7 +186,14 @@ ENS_MONO
 __CPROVER_ensures(FRESH_NODE(__CPROVER_return_value)) /*@C02*/
 __CPROVER_ensures(N_(__CPROVER_return_value)->t == NT_SPLIT && N_(__CPROVER_return_value)->left != 0) /*@C02,C04*/
 /* ARGS -> id MARGS */
-__CPROVER_ensures(NERR != OLD(NERR) || (OLD(LA) == TK_ID && TOKI > OLD(TOKI))) /*@C04*/;
+__CPROVER_ensures(NERR != OLD(NERR) || (OLD(LA) == TK_ID && TOKI > OLD(TOKI))) /*@C04*/
+#ifdef CANARY_ARGS
+/* reachability of the cases (each must FAIL); only in the group that ENFORCES this contract - where the contract replaces a
+ * call its clauses are assumed, and a canary must never be assumed */
+__CPROVER_ensures(NERR != OLD(NERR)) /*@CANARY*/
+__CPROVER_ensures(NERR == OLD(NERR)) /*@CANARY*/
+#endif
+;
 
 void *c_MARGS(void *ps)
 REQ_TOK(ps)
@@ -162,7 +201,14 @@ ASSIGNS_PARSE
 ENS_MONO
 __CPROVER_ensures(FRESH_OR_NULL(__CPROVER_return_value)) /*@C02*/
 __CPROVER_ensures(OLD(LA) == TK_ARGSEP || (__CPROVER_return_value == 0 && NERR == OLD(NERR) && TOKI == OLD(TOKI))) /*@C04*/
-__CPROVER_ensures(OLD(LA) != TK_ARGSEP || (__CPROVER_return_value != 0 && TOKI > OLD(TOKI))) /*@C04,C02*/;
+__CPROVER_ensures(OLD(LA) != TK_ARGSEP || (__CPROVER_return_value != 0 && TOKI > OLD(TOKI))) /*@C04,C02*/
+#ifdef CANARY_MARGS
+/* reachability of the cases (each must FAIL); only in the group that ENFORCES this contract - where the contract replaces a
+ * call its clauses are assumed, and a canary must never be assumed */
+__CPROVER_ensures(OLD(LA) == TK_ARGSEP) /*@CANARY*/
+__CPROVER_ensures(OLD(LA) != TK_ARGSEP) /*@CANARY*/
+#endif
+;
 
 void *c_OPORTS(void *ps)
 REQ_TOK(ps)
@@ -171,7 +217,15 @@ ENS_MONO
 __CPROVER_ensures(FRESH_OR_NULL(__CPROVER_return_value)) /*@C02*/
 __CPROVER_ensures(OLD(LA) == TK_OUT || (__CPROVER_return_value == 0 && NERR == OLD(NERR) && TOKI == OLD(TOKI))) /*@C04*/
 __CPROVER_ensures(OLD(LA) != TK_OUT || (__CPROVER_return_value != 0 && N_(__CPROVER_return_value)->t == NT_NAME &&
-                  (NERR != OLD(NERR) || (g_toks[OLD(TOKI) + 1].t == TK_ID && TOKI == OLD(TOKI) + 2)))) /*@C04,C02*/;
+                  (NERR != OLD(NERR) || (g_toks[OLD(TOKI) + 1].t == TK_ID && TOKI == OLD(TOKI) + 2)))) /*@C04,C02*/
+#ifdef CANARY_OPORTS
+/* reachability of the cases (each must FAIL); only in the group that ENFORCES this contract - where the contract replaces a
+ * call its clauses are assumed, and a canary must never be assumed */
+__CPROVER_ensures(OLD(LA) == TK_OUT) /*@CANARY*/
+__CPROVER_ensures(OLD(LA) != TK_OUT) /*@CANARY*/
+__CPROVER_ensures(OLD(LA) != TK_OUT || NERR != OLD(NERR)) /*@CANARY*/
+#endif
+;
 
 void *c_PORTS(void *ps)
 REQ_TOK(ps)
@@ -181,7 +235,14 @@ __CPROVER_ensures(FRESH_OR_NULL(__CPROVER_return_value)) /*@C02*/
 /* PORTS -> eps: NO node (callers must cope: C02) */
 __CPROVER_ensures(OLD(LA) == TK_IN || (__CPROVER_return_value == 0 && NERR == OLD(NERR) && TOKI == OLD(TOKI))) /*@C04,C02*/
 __CPROVER_ensures(OLD(LA) != TK_IN || (__CPROVER_return_value != 0 && N_(__CPROVER_return_value)->t == NT_SPLIT &&
-                  N_(__CPROVER_return_value)->left != 0 && TOKI > OLD(TOKI))) /*@C04,C02*/;
+                  N_(__CPROVER_return_value)->left != 0 && TOKI > OLD(TOKI))) /*@C04,C02*/
+#ifdef CANARY_PORTS
+/* reachability of the cases (each must FAIL); only in the group that ENFORCES this contract - where the contract replaces a
+ * call its clauses are assumed, and a canary must never be assumed */
+__CPROVER_ensures(OLD(LA) == TK_IN) /*@CANARY*/
+__CPROVER_ensures(OLD(LA) != TK_IN) /*@CANARY*/
+#endif
+;
 
 /* ------------------------------------------------------------------ MOREP -> eps | ; P */
 void *c_MOREP(void *ps)
@@ -192,7 +253,15 @@ __CPROVER_ensures(FRESH_OR_NULL(__CPROVER_return_value)) /*@C02*/
 __CPROVER_ensures(OLD(LA) == TK_PROGSEP || (__CPROVER_return_value == 0 && NERR == OLD(NERR) && TOKI == OLD(TOKI))) /*@C04*/
 __CPROVER_ensures(OLD(LA) != TK_PROGSEP || TOKI > OLD(TOKI)) /*@C04*/
 /* an excess ';' before END / EOF is an error */
-__CPROVER_ensures(OLD(LA) != TK_PROGSEP || (g_toks[OLD(TOKI) + 1].t != TK_END && g_toks[OLD(TOKI) + 1].t != TK_T_EOF) || NERR > OLD(NERR)) /*@C04*/;
+__CPROVER_ensures(OLD(LA) != TK_PROGSEP || (g_toks[OLD(TOKI) + 1].t != TK_END && g_toks[OLD(TOKI) + 1].t != TK_T_EOF) || NERR > OLD(NERR)) /*@C04*/
+#ifdef CANARY_MOREP
+/* reachability of the cases (each must FAIL); only in the group that ENFORCES this contract - where the contract replaces a
+ * call its clauses are assumed, and a canary must never be assumed */
+__CPROVER_ensures(OLD(LA) == TK_PROGSEP) /*@CANARY*/
+__CPROVER_ensures(OLD(LA) != TK_PROGSEP) /*@CANARY*/
+__CPROVER_ensures(OLD(LA) != TK_PROGSEP || NERR > OLD(NERR)) /*@CANARY*/
+#endif
+;
 
 /* ------------------------------------------------------------------ P, S, expected_end_or_semicolon: safety and monotonicity
  * (their full production conformance is not under contract) */
@@ -209,7 +278,8 @@ __CPROVER_ensures((OLD(LA) != TK_LOOP && OLD(LA) != TK_WHILE) ||
                   (__CPROVER_return_value != 0 && N_(__CPROVER_return_value)->t == NT_SPLIT && N_(__CPROVER_return_value)->left != 0 &&
                    N_(N_(__CPROVER_return_value)->left)->t == NT_SPLIT && N_(N_(__CPROVER_return_value)->left)->left != 0 &&
                    N_(N_(N_(__CPROVER_return_value)->left)->left)->t == (OLD(LA) == TK_LOOP ? NT_LOOP : NT_WHILE) &&
-                   MARK_OK(N_(N_(__CPROVER_return_value)->left)->right))) /*@C07,C04,C08*/;
+                   MARK_OK(N_(N_(__CPROVER_return_value)->left)->right))) /*@C07,C04,C08*/
+;
 
 void *c_S(void *ps)
 REQ_TOK(ps)
@@ -223,7 +293,8 @@ __CPROVER_ensures(OLD(LA) != TK_PROGRAM ||
                    N_(N_(__CPROVER_return_value)->left)->t == NT_PROGRAM && N_(N_(__CPROVER_return_value)->left)->left != 0 &&
                    N_(N_(N_(__CPROVER_return_value)->left)->left)->left != 0 &&
                    N_(N_(N_(N_(__CPROVER_return_value)->left)->left)->left)->t == NT_NAME &&
-                   N_(N_(__CPROVER_return_value)->left)->right != 0 && MARK_OK(N_(N_(N_(__CPROVER_return_value)->left)->right)->right))) /*@C07,C04,C02*/;
+                   N_(N_(__CPROVER_return_value)->left)->right != 0 && MARK_OK(N_(N_(N_(__CPROVER_return_value)->left)->right)->right))) /*@C07,C04,C02*/
+;
 
 void c_expected_end_or_semicolon(void *ps)
 REQ_TOK(ps)
